@@ -335,6 +335,7 @@ void h_snapshot_save_elevation(void)
 {
     size_t gsize = nondet_size_t(); double *elevation, *elevation_snapshot;
     AG = nondet_size_t();
+    if (0) fsl_assign_all_d(elevation_snapshot, elevation, 0);   /* keeps the assignment model (and its loop contract) in the binary whatever the body calls */
     snapshot_save_elevation(gsize, elevation, elevation_snapshot);
     __CPROVER_assert(0, "canary: postcondition point reachable");
 }
